@@ -318,7 +318,7 @@ def _mutation_battery(ctx: Ctx) -> None:
         futs = [(m, ex.submit(st.one_mutant, ctx.pid, m)) for m in muts]
         for m, f in futs:
             status, msg = f.result()
-            if status == 'CAUGHT' and m.get('expect') == 'silent':
+            if status == 'CAUGHT' and m.get('expect') in ('silent', 'pass'):
                 status = 'SILENT-OK'
             res[status] = res.get(status, 0) + 1
             if status not in ('CAUGHT', 'SILENT-OK'):
